@@ -129,8 +129,13 @@ theorem step_spec (rest : Str) (pos : Nat) (prev : Option Ch) (ctx : Ctx) :
       | some e2 => exact ⟨(by intro e c' h; cases h; exact repeaterNumber_good h2), (by intro q h; cases h), (by simp)⟩
       | none =>
       simp only
-      cases h3 : repeater rest with
-      | some e3 => exact ⟨(by intro e c' h; cases h; exact repeater_good h3), (by intro q h; cases h), (by simp)⟩
+      cases h3 : repeaterCtx rest ctx with
+      | some e3 =>
+        have h3' : repeater rest = some e3 := by
+          unfold repeaterCtx at h3; split at h3
+          · cases h3
+          · exact h3
+        exact ⟨(by intro e c' h; cases h; exact repeater_good h3'), (by intro q h; cases h), (by simp)⟩
       | none =>
       simp only
       cases h4 : whiteSpace rest with
